@@ -170,6 +170,17 @@ impl Subject for C07 {
                 })]);
             }
         }
+        // vacuity guard: every rule of the configuration must really be in force
+        let (want, got) = match &self.cfg {
+            Cfg::Flow2 { .. } => (2, flow::get_rules_of_resource(&RES.to_string()).len()),
+            Cfg::Hotspot2 { .. } => (2, hotspot::get_rules_of_resource(&RES.to_string()).len()),
+            Cfg::Flow { rate, .. } => (1, if *rate >= 0.0 { flow::get_rules_of_resource(&RES.to_string()).len() } else { 1 }),
+            Cfg::Hotspot { .. } => (1, hotspot::get_rules_of_resource(&RES.to_string()).len()),
+        };
+        if got != want {
+            eprintln!("MACHINERY: C07 configuration {:?}: {} of {} harness rules are in force", self.cfg, got, want);
+            std::process::exit(2);
+        }
         clock::take_sleeps();
     }
     fn enabled(&self) -> Vec<Op> {
